@@ -633,3 +633,9 @@ def replay(ctx, doc):
     why = oracle_get(j, got) if j["kind"] == "get" else oracle_guard(j, got)
     print("implementation:", got, "->", why)
     return why is not None
+
+
+# somebody else's classes: the documented extension points used the way a third party uses them (props/thirdparty.py)
+from props import thirdparty as _thirdparty  # noqa: E402
+
+correspondence, search, replay = _thirdparty.attach(PID, correspondence, search, replay)
